@@ -26,6 +26,7 @@ type AbsDg struct {
 	Ack  bool     `json:"ack"`
 	Flt  string   `json:"flt"` // filter shape
 }
+
 // AbsUc: one use case of the registry
 type AbsUc struct {
 	E     string `json:"e"`
